@@ -13,7 +13,10 @@ RULE = ("M: LandscapeNorms.tla -- exact rational segment integrals of |f|^p: add
         "(sign changes, nearly flat segments), arbitrary zero-ended critical points, perfect-square ordinates for p in {1.5,2.5,3.5}; "
         "p_norm(p) for p = 1..6 and sup_norm are recorded; TraceNorms.tla recomputes the integrals from the OBSERVED critical points in "
         "fixed point (1e-16) and requires norm^p = sum of integrals to 1e-9, finiteness, sup = max |y|; stability law with both sides "
-        "observed from the code. Non-trivial = an object with a sign-crossing segment; distinct = (object, embedding).")
+        "observed from the code. Sessions over two SHARED landscape objects P, Q (exact, or grid on one grid): norms of P and Q before and after "
+        "P-Q, Q-P, P-P, c*P / P*c, P+Q were built from them in a random order (each must equal the integral of the content observed at the "
+        "start), and the consequences the property names evaluated by TLC on the recorded values: zero for P-P, ||-f|| = ||f||, "
+        "||cP|| = |c| ||P||, triangle inequality for P-Q and P+Q, for p = 1..6 and the sup norm. Non-trivial = an object with a sign-crossing segment; distinct = (object, embedding).")
 PS = [1, 2, 3, 4, 5, 6]
 HALF = [1.5, 2.5, 3.5]
 
@@ -153,10 +156,60 @@ def has_crossing(obj):
     return any(r[i] * r[i + 1] < 0 for r in rows for i in range(len(r) - 1))
 
 
+def gen_session(rng):
+    """two landscapes of one kind (exact / grid on one grid), a scalar, an order for the derived objects"""
+    if rng.random() < 0.5:
+        a = dict(t="dgm", bars=rand_bars(rng, 0, 14, rng.randint(1, 4)))
+        b = dict(t="dgm", bars=rand_bars(rng, 0, 14, rng.randint(1, 4)))
+    else:
+        s = rng.choice([1, 2]); n = rng.randint(4, 9); a0 = rng.choice([0, 2])
+        def g():
+            if rng.random() < 0.5:
+                return dict(t="avals", vals=[[0] + [rng.randint(-3, 5) for _ in range(n - 2)] + [0] for _ in range(rng.randint(1, 3))], grid=[a0, s, n])
+            bars = [[a0 + rng.randint(0, (n - 1) * s - 1), 0] for _ in range(rng.randint(1, 3))]
+            for p in bars:
+                p[1] = rng.randint(p[0] + 1, a0 + (n - 1) * s)
+            return dict(t="adgm", bars=bars + [[a0, a0 + (n - 1) * s]], grid=[a0, s, n])
+        a, b = g(), g()
+    order = ["D", "E", "Z", "H", "S"]
+    rng.shuffle(order)
+    return dict(t="session", a=a, b=b, c=rng.choice([[2, 1], [-3, 1], [1, 2], [-1, 4], [-1, 1]]), order=order, rmul=int(rng.random() < 0.5))
+
+
+def session_cases(m, e, r):
+    """-> list of TraceNorms cases for one recorded session (None: undecodable)"""
+    out = []
+    decs = {}
+    for nm, key in (("P", "cP"), ("Q", "cQ")):
+        dec = decode_obj(r[key], e, e.s)
+        if dec is None:
+            return None
+        decs[nm] = dec
+    for nm, obs in (("P", "P"), ("P", "P2"), ("Q", "Q"), ("Q", "Q2")):
+        obj, q = decs[nm]
+        norms = [[p, 1] + obs_num(r["n"][obs].get(str(p)), lambda v, p=p: v ** p / (e.s ** p * e.s)) for p in PS]
+        out.append(dict(kind="norms", obj=obj, q=q, lattice=1, norms=norms, sup=obs_num(r["sup"][obs], lambda v: v / e.s), session_part=obs))
+    rows = []
+    for p in [0] + PS:
+        get = (lambda nm: r["sup"].get(nm)) if p == 0 else (lambda nm, p=p: r["n"].get(nm, {}).get(str(p)))
+        vals = [get(nm) for nm in ("P", "Q", "D", "E", "Z", "H", "S")]
+        nums = [obs_num(v, lambda x: x) for v in vals]
+        fin = int(all(x[0] == 1 for x in nums))
+        fr = [Fraction(unfl(v)) if x[0] == 1 else Fraction(0) for v, x in zip(vals, nums)]
+        N = max(fr[0], fr[1])
+        if fin and N == 0:
+            continue
+        rows.append([p, fin] + [fix(x / N) if fin else fix(0) for x in fr])
+    out.append(dict(kind="laws", c=m["c"], rows=rows))
+    return out
+
+
 def validate(ctx, makes, embs, label, nproc=12):
     jobs = []
     for m, e in zip(makes, embs):
-        if m["t"] == "stab":
+        if m["t"] == "session":
+            jobs.append(dict(kind="session", a=to_float_make(m["a"], e), b=to_float_make(m["b"], e), c=m["c"], order=m["order"], rmul=m["rmul"], ps=PS))
+        elif m["t"] == "stab":
             jobs.append(dict(kind="stab", X=[[e.f(b), e.f(d)] for b, d in m["X"]], Y=[[e.f(b), e.f(d)] for b, d in m["Y"]]))
         else:
             jobs.append(dict(kind="norms", make=to_float_make(m, e), ps=PS + (HALF if m.get("squares") else [])))
@@ -167,6 +220,16 @@ def validate(ctx, makes, embs, label, nproc=12):
             if "sup" not in r:
                 ctx.failure({"clause": "no-result", "detail": r.get("raised")}, {"kind": "norms", "make": m, "emb": e.name}); continue
             cases.append(dict(kind="stab", X=m["X"], Y=m["Y"], sup=obs_num(r["sup"], lambda v: v / e.s), bott=obs_num(r["bott"], lambda v: v / e.s))); idx.append(i)
+            continue
+        if m["t"] == "session":
+            if "cP" not in r:
+                ctx.failure({"clause": "no-result", "detail": {k: r.get(k) for k in ("raised", "msg")}}, {"kind": "norms", "make": m, "emb": e.name}); continue
+            sc = session_cases(m, e, r)
+            if sc is None:
+                ctx.extra["skipped_undecodable"] = ctx.extra.get("skipped_undecodable", 0) + 1
+                continue
+            for c_ in sc:
+                cases.append(c_); idx.append(i)
             continue
         if "content" not in r:
             ctx.failure({"clause": "no-result", "detail": {k: r.get(k) for k in ("raised", "msg")}}, {"kind": "norms", "make": m, "emb": e.name}); continue
@@ -188,7 +251,7 @@ def validate(ctx, makes, embs, label, nproc=12):
     ctx.extra.setdefault("trace_validation_runs", []).append(dict(label=label, cases=len(cases), tlc_states=st["states"], wall_s=round(st["wall"], 1)))
     for c, v, i in zip(cases, verdicts, idx):
         status, clause, pp = v[2], v[3], v[4]
-        nt = c["kind"] == "stab" or has_crossing(c["obj"])
+        nt = c["kind"] in ("stab", "laws") or has_crossing(c["obj"])
         ctx.count(1, key=str(makes[i]) + embs[i].name, nontrivial=nt)
         if status == "ok":
             ctx.ok_trace()
@@ -197,7 +260,10 @@ def validate(ctx, makes, embs, label, nproc=12):
             ctx.extra["excluded_C03_known_finding_inputs"] = ctx.extra.get("excluded_C03_known_finding_inputs", 0) + 1
             ctx.traces_total += 1
         else:
-            ctx.failure({"clause": clause, "p_or_k": pp, "crossing": bool(c["kind"] == "norms" and has_crossing(c["obj"]))}, {"kind": "norms", "make": makes[i], "emb": embs[i].name})
+            info = {"clause": clause, "p_or_k": pp, "crossing": bool(c["kind"] == "norms" and has_crossing(c["obj"]))}
+            if makes[i]["t"] == "session":
+                info["session"] = c.get("session_part", "laws")
+            ctx.failure(info, {"kind": "norms", "make": makes[i], "emb": embs[i].name})
 
 
 def run(ctx):
@@ -216,6 +282,8 @@ def run(ctx):
     makes = [gen_make(rng) for _ in range(n)]
     for _ in range(n // 5):
         makes.append(dict(t="stab", X=rand_bars(rng, 0, 14, rng.randint(1, 4)), Y=rand_bars(rng, 0, 14, rng.randint(1, 4))))
+    for _ in range(n // 4):
+        makes.append(gen_session(rng))
     embs = [EXACT_EMBS[i % 6] for i in range(len(makes))]      # incl. scales 2^-50 and 2^30 (absolute tolerances in the code show there)
     validate(ctx, makes, embs, "V")
 
